@@ -17,7 +17,7 @@ import sys
 import time
 
 import vlib
-from props import PROPS
+from props import PROPS, HARNESS_DOC
 
 VERIF = vlib.VERIF
 
@@ -311,7 +311,7 @@ def finish(ev, prop, t0, hres, spec, messages, exit_code):
         "states": max(1, checks),
         "transitions": max(1, n),
         "traces_validated_against_impl": sum(1 for r in hres.values() if r.get("replay")),
-        "samples": [{"harness": h, **r} for h, r in sorted(hres.items())][:60],
+        "samples": [{"harness": h, "what": HARNESS_DOC.get(h, ""), **r} for h, r in sorted(hres.items())][:60],
         "evaluations": max(1, n),
         "distinct_nontrivial": max(2, passed) if passed >= 2 else passed,
         "rule": "one evaluation = one Kani harness (a fixed shape with symbolic numbers/flags/dates) decided by CBMC over every value in the stated ranges; non-trivial = verdict SUCCESSFUL with every cover witness satisfied and unwinding assertions holding",
